@@ -76,40 +76,55 @@ impl OverlapChecker
             e.position.cmp(&position)
         });
 
-        match index
+        let i = match index
         {
-            Ok(i) =>
+            Ok(found) =>
             {
-                if self.entries[i].size > 0 && size > 0
+                // Entries that share a position are all zero-sized,
+                // except possibly the last one of them. Keep it that way,
+                // so that checking the neighbors below is enough:
+                // a zero-sized entry goes before them, any other after.
+                let mut i = found;
+
+                if size == 0
                 {
-                    return (i + 1, Some(&self.entries[i]));
+                    while i > 0 && self.entries[i - 1].position == position
+                    {
+                        i -= 1;
+                    }
+                }
+                else
+                {
+                    while i < self.entries.len() && self.entries[i].position == position
+                    {
+                        i += 1;
+                    }
                 }
 
-                (i + 1, None)
+                i
             }
 
-            Err(i) =>
+            Err(i) => i,
+        };
+
+        if i < self.entries.len()
+        {
+            let next = &self.entries[i];
+            if position + size > next.position
             {
-                if i < self.entries.len()
-                {
-                    let next = &self.entries[i];
-                    if position + size > next.position
-                    {
-                        return (i, Some(next));
-                    }
-                }
-
-                if i > 0 && i - 1 < self.entries.len()
-                {
-                    let prev = &self.entries[i - 1];
-                    if prev.position + prev.size > position
-                    {
-                        return (i - 1, Some(prev));
-                    }
-                }
-
-                (i, None)
+                return (i, Some(next));
             }
         }
+
+        if i > 0 && i - 1 < self.entries.len()
+        {
+            let prev = &self.entries[i - 1];
+            if prev.position + prev.size > position
+            {
+                return (i - 1, Some(prev));
+            }
+        }
+
+        (i, None)
     }
 }
